@@ -306,6 +306,18 @@ def check(pid, tier, seed, spec):
         assum = assumptions(pid, names)
         if not assum["ok"]:
             broken.append("Print Assumptions failed")
+    # thorough tier: the compiled theorems of this property, and everything they depend on, are re-checked
+    # by the independent checker (coqchk), which also lists the axioms they rely on
+    chk_note = None
+    if tier == "thorough" and not broken:
+        rc_chk, out_chk = sh(["coqchk", "-silent", "-o", "-Q", ".", "PV", "PV.Props.%s" % pid], cwd=COQ, timeout=3000)
+        ax = re.findall(r"^\s+(Coq\.[\w.]+)\s*$", out_chk, flags=re.M)
+        unsafe = [l.strip() for l in out_chk.splitlines() if re.search(r"relying on type-in-type|unsafe \(co\)fixpoints|positivity is assumed", l) and "<none>" not in l]
+        if rc_chk != 0 or unsafe:
+            broken.append("coqchk rejects Props/%s.vo: %s" % (pid, (unsafe or [out_chk[-400:]])[0]))
+        else:
+            chk_note = "coqchk -silent -o re-checked PV.Props.%s and its dependencies; axioms: %s" % (pid, ", ".join(ax) if ax else "none")
+            notes.append(chk_note)
     # implementation side + oracle + model/spec evaluation of the same cases
     def explore(tier_, seed_):
         run_, hlog_ = run_harness(pid, tier_, seed_)
